@@ -134,7 +134,16 @@ def run(ctx: Ctx) -> None:
                 # further entries: for the same path (one amend table listing several codes) or for another directory
                 more = []
                 for _ in range(rng.choice([0, 0, 1, 2])):
-                    text = entry if rng.random() < 0.6 else os.path.relpath(os.path.normpath(root / rng.choice(DIRS)), cfg_base)
+                    r2 = rng.random()
+                    if r2 < 0.4:
+                        text = entry
+                    elif r2 < 0.75:
+                        # another ancestor of the same file (or the file itself): nested tables that both cover it
+                        ps_ = frel.split("/")
+                        text = os.path.relpath(os.path.normpath(root / "/".join(ps_[: rng.randrange(0, len(ps_) + 1)])), cfg_base)
+                        ctx.count("amend-tables-on-nested-paths")
+                    else:
+                        text = os.path.relpath(os.path.normpath(root / rng.choice(DIRS)), cfg_base)
                     m = classifier(text)
                     raw[id(m)] = text
                     more.append(m)
